@@ -397,11 +397,18 @@ def matchLeaf (tb : Tables) (xsd11 strict : Bool) (l : Leaf) : Item → Res
 def funcItemTest (tb : Tables) (sa : Tys) (sr : Ty) (a : Tys) (r : Ty) : Bool :=
   sa.length == a.length && Tys.all2 (isRestriction tb) sa a && isRestriction tb r sr
 
-/-- `match_function_test(function_test, as_argument=True)` (functions.py l.330-331): used when a function item
-is passed to an inline function whose parameter is declared `function(a) as r` (`get_argument`,
-xpath30/_xpath30_functions.py l.120-123).  The parameter types are compared the other way round. -/
-def funcItemTestArg (tb : Tables) (sa : Tys) (sr : Ty) (a : Tys) (r : Ty) : Bool :=
-  sa.length == a.length && Tys.all2 (isRestriction tb) a sa && isRestriction tb r sr
+/-- the arity of a function item (maps and arrays are functions of one parameter) -/
+def Item.arity : Item → Option Nat
+  | .func sa _ => some sa.length
+  | .map _ => some 1
+  | .array _ => some 1
+  | _ => none
+
+/-- function coercion (`_InlineFunction.convert_argument`, xpath30/_xpath30_functions.py l.126-137; XPath 3.1
+§3.1.5.2): a single function item passed to a parameter declared `function(a) as r` is accepted exactly when it has
+`a.length` parameters, whatever its declared signature (`len(split_function_test(function_test)) - 1`: the
+parameter list of the declared test is split by nesting depth, `string_split_arity`). -/
+def funcItemTestArg (x : Item) (a : Tys) : Option Bool := x.arity.map (· == a.length)
 
 def endsPlusStar (t : Ty) : Bool := t.last == .plus || t.last == .star
 
@@ -551,6 +558,19 @@ def treatAs (tb : Tables) (xsd11 : Bool) (t : Ty) (v : List Item) : Except Err (
   | .empty => if v.isEmpty then .ok [] else .error .XPDY0050
   | t => treatLoop t.tokOcc (instItem tb xsd11 t) 0 v []
 
+/-! ## a typed function test with an occurrence indicator of its own
+
+`(function(A) as R)*` — XPath 3.0 ParenthesizedItemType — is the only way to give a typed function test an occurrence
+indicator (without the parentheses the indicator belongs to `R`).  The AST has no such type: texts cannot hold it
+(see finding F18w).  At the top level of `instance of` / `treat as` the parser (fix-c18-6) puts the indicator on the
+function-test token, and the evaluators run the same loops with it. -/
+
+def instanceOfOwnOcc (tb : Tables) (xsd11 : Bool) (o : Occ) (a : Tys) (r : Ty) (v : List Item) : Res :=
+  instLoop o (instItem tb xsd11 (.func a r)) 0 v
+
+def treatAsOwnOcc (tb : Tables) (xsd11 : Bool) (o : Occ) (a : Tys) (r : Ty) (v : List Item) : Except Err (List Item) :=
+  treatLoop o (instItem tb xsd11 (.func a r)) 0 v []
+
 /-! ## judgements whose operand is an expression that may raise
 
 `self[0].select(context)` is a generator: the operand of `instance of` / `treat as` is evaluated lazily inside the
@@ -679,8 +699,54 @@ def Tables.castCls (tb : Tables) (c t : Nat) : Nat := (tb.castRows.getD c []).ge
 def castSeq (tb : Tables) (t : Nat) (v : List Item) : List Item :=
   v.map (fun x => match x with | .atom c => .atom (tb.castCls c t) | x => x)
 
-/-- the value bound to a parameter declared `T` (or returned through a declared result type `T`), or XPTY0004 -/
+mutual
+/-- `XPathArray.iter_flatten` (arrays.py l.130-146): the members of an array, nested arrays flattened -/
+def Item.atomized : Item → List Item
+  | .array ms => atomizedMs ms
+  | x => [x]
+def atomizedMs : List (List Item) → List Item
+  | [] => []
+  | m :: ms => atomizedSeq m ++ atomizedMs ms
+def atomizedSeq : List Item → List Item
+  | [] => []
+  | x :: xs => x.atomized ++ atomizedSeq xs
+end
+
+def Item.isArray : Item → Bool
+  | .array _ => true | _ => false
+
+/-- the text of the item type starts with `xs:` (`sequence_type.startswith('xs:')`) -/
+def Ty.isXsName : Ty → Bool
+  | .leaf (.atomic _) _ => true | .leaf .numeric _ => true | .leaf (.listT _) _ => true
+  | .leaf .anyType _ => true | .leaf .anySimpleType _ => true
+  | _ => false
+
+/-- the value bound to a parameter declared `T`, or a type error
+(XPTY0004; FOTY0013 for a function item that cannot be atomized — the model has one "type error" code).  With the
+`fix:` 8197a40 of the pinned tree a value that does not match a type named `xs:…` and contains an array is
+atomized first (the arrays are replaced by their members). -/
 def convertArg (tb : Tables) (xsd11 : Bool) (T : Ty) (v : List Item) : Except Err (List Item) :=
+  match matchSt tb xsd11 true T v with
+  | .error e => .error e
+  | .ok true => .ok v
+  | .ok false =>
+    let atomize := T.isXsName && v.any Item.isArray
+    let v1 := if atomize then atomizedSeq v else v
+    match (if atomize then matchSt tb xsd11 true T v1 else .ok false) with
+    | .error e => .error e
+    | .ok true => .ok v1
+    | .ok false =>
+      let v' := match T with
+        | .leaf (.atomic t) _ => castSeq tb t v1
+        | _ => v1
+      match matchSt tb xsd11 true T v' with
+      | .error e => .error e
+      | .ok true => .ok v'
+      | .ok false => .error .XPDY0050     -- reported as XPTY0004 by the code; the model has one "type error" code
+
+/-- the value returned through a declared result type `T` (`validated_result`, functions.py l.166-176): as
+`convertArg` without the atomization of arrays -/
+def convertResult (tb : Tables) (xsd11 : Bool) (T : Ty) (v : List Item) : Except Err (List Item) :=
   match matchSt tb xsd11 true T v with
   | .error e => .error e
   | .ok true => .ok v
@@ -691,7 +757,18 @@ def convertArg (tb : Tables) (xsd11 : Bool) (T : Ty) (v : List Item) : Except Er
     match matchSt tb xsd11 true T v' with
     | .error e => .error e
     | .ok true => .ok v'
-    | .ok false => .error .XPDY0050     -- reported as XPTY0004 by the code; the model has one "type error" code
+    | .ok false => .error .XPDY0050
+
+/-- the value bound to a parameter of an inline function (`convert_argument`): function coercion for a single
+function item against a typed function test, the function conversion rules otherwise -/
+def convertParam (tb : Tables) (xsd11 : Bool) (T : Ty) (v : List Item) : Except Err (List Item) :=
+  match v, T with
+  | [x], .func a _ =>
+    (match funcItemTestArg x a with
+     | some true => .ok v
+     | some false => .error .XPDY0050
+     | none => convertArg tb xsd11 T v)
+  | _, _ => convertArg tb xsd11 T v
 
 /-- operations of a judgement history on a pool of values (positions in the pool) -/
 inductive HOp
@@ -722,13 +799,11 @@ def hStep (tb : Tables) (xsd11 : Bool) (pool : List (List Item)) : HOp → List 
   | .jInst i t => (pool, some (instanceOf tb xsd11 t (pool.getD i [])))
   | .jTreat i t => (pool, some (match treatAs tb xsd11 t (pool.getD i []) with
       | .ok _ => .ok true | .error .XPDY0050 => .ok false | .error e => .error e))
-  | .jArg i t => (pool, some (match headItem (pool.getD i []), t with
-      | .func sa sr, .func a r => .ok (funcItemTestArg tb sa sr a r)
-      | _, t => match convertArg tb xsd11 t (pool.getD i []) with   -- other values: the function conversion rules
-        | .ok _ => .ok true | .error .XPDY0050 => .ok false | .error e => .error e))
+  | .jArg i t => (pool, some (match convertParam tb xsd11 t (pool.getD i []) with
+      | .ok _ => .ok true | .error .XPDY0050 => .ok false | .error e => .error e))
   | .papp i mask => (pool ++ [[(headItem (pool.getD i [])).partialApply mask]], none)
   | .coerce i k t r =>
-    match (convertArg tb xsd11 t (memberOf (pool.getD i []) k)).bind (convertArg tb xsd11 r) with
+    match (convertParam tb xsd11 t (memberOf (pool.getD i []) k)).bind (convertResult tb xsd11 r) with
     | .ok w => (pool ++ [w], some (.ok true))
     | .error .XPDY0050 => (pool ++ [[]], some (.ok false))
     | .error e => (pool ++ [[]], some (.error e))
@@ -819,16 +894,39 @@ def Ty.text (nm ln : Nat → String) (t : Ty) : String := String.join ((t.render
 text of the current parameter, result = (parameter texts, text of the return type).  A `', '` or the `) as ` of the
 function test itself is recognised at depth 0 only. -/
 def splitScan : Nat → List Tok → List Tok → List (List Tok) × List Tok
-  | _, [], cur => ([cur], [])                                   -- no closing parenthesis: not a function test
-  | 0, .closeAs :: r, cur => (if cur.isEmpty then [] else [cur], r)   -- `if k > start: append`; the rest is the return type
-  | 0, .comma :: r, cur => (cur :: (splitScan 0 r []).1, (splitScan 0 r []).2)
-  | d, .opn s :: r, cur => splitScan (d + 1) r (cur ++ [.opn s])
-  | d + 1, .cls s :: r, cur => splitScan d r (cur ++ [.cls s])
-  | d + 1, .closeAs :: r, cur => splitScan d r (cur ++ [.closeAs])
-  | d, t :: r, cur => splitScan d r (cur ++ [t])
+  | _, [], _ => ([], [])                                       -- no closing parenthesis: `return []`
+  | d, t :: r, cur => match t, d with
+    | .closeAs, 0 => (if cur.isEmpty then [] else [cur], r)    -- `if k > start: append`; the rest is the return type
+    | .comma, 0 => (cur :: (splitScan 0 r []).1, (splitScan 0 r []).2)
+    | .cls _, 0 => ([], [])                                    -- `)` at depth 0 not followed by ` as `: `return []`
+    | .opn _, d => splitScan (d + 1) r (cur ++ [t])
+    | .cls _, d + 1 => splitScan d r (cur ++ [t])
+    | .closeAs, d + 1 => splitScan d r (cur ++ [t])
+    | .comma, d + 1 => splitScan (d + 1) r (cur ++ [t])
+    | .atom _, d => splitScan d r (cur ++ [t])
 
 /-- `split_function_test(st)` for the text of a typed function test: parameter texts and return type text -/
 def pySplit (st : List Tok) : List (List Tok) × List Tok := splitScan 0 st.tail []
+
+/-! the splitting of the pinned tree before `fix-c18-6` (`st[9:].partition(') as ')`, then `.split(', ')` of the
+first part), kept to state exactly where it differs from `pySplit` -/
+
+/-- `s.partition(') as ')` -/
+def partitionCloseAs : List Tok → List Tok × List Tok
+  | [] => ([], [])
+  | .closeAs :: r => ([], r)
+  | t :: r => (t :: (partitionCloseAs r).1, (partitionCloseAs r).2)
+
+/-- `s.split(', ')` -/
+def splitComma : List Tok → List (List Tok)
+  | [] => [[]]
+  | .comma :: r => [] :: splitComma r
+  | t :: r => match splitComma r with
+    | p :: ps => (t :: p) :: ps
+    | [] => [[t]]
+
+def pySplitOld (st : List Tok) : List (List Tok) × List Tok :=
+  (splitComma (partitionCloseAs st.tail).1, (partitionCloseAs st.tail).2)
 
 /-- what the AST says the pieces are -/
 def Tys.argTexts (nm ln : Nat → String) : Tys → List (List Tok)
@@ -861,6 +959,16 @@ def Ty.flat : Ty → Bool
   | .func a r => a.allSimple && r.flat
   | .map _ v _ => v.flat
   | .array m _ => m.flat
+
+/-- like `flat`, and no typed function test without parameters (`''.split(', ')` is `['']`, one empty piece): where
+the splitting before fix-c18-6 (`pySplitOld`) returns the pieces of the AST.  Its negation is the trigger of finding
+F18p for `is_sequence_type_restriction` / `split_function_test` on a tree without that fix. -/
+def Ty.oldSplitOK : Ty → Bool
+  | .empty => true
+  | .leaf _ _ => true
+  | .func a r => !a.isNil && a.allSimple && r.oldSplitOK
+  | .map _ v _ => v.oldSplitOK
+  | .array m _ => m.oldSplitOK
 
 /-- every argument of the (top-level) typed function test is `simple` or is itself a typed function test with
 `simple` arguments and a `simple` return type: the shape of the higher-order functions of the library -/
